@@ -222,11 +222,13 @@ Record imon := mkIMon {
   m_issues_at : Z; m_issues_n : Z;
   m_gauge : Z;                 (* last value of the is-leader gauge *)
   m_last_to : Z;               (* to-state of the last recorded transition, -1 none; CANDIDATE after Start *)
-  m_stop_call : option (Z * Z * Z * bool * bool * Z) (* t0, call, bound, delete-requested, owned-at-call, caller goroutine *)
+  m_stop_call : option (Z * Z * Z * bool * bool * Z); (* t0, call, bound, delete-requested, owned-at-call, caller goroutine *)
+  m_wsend : Z;                 (* revision of the watch entry handed to the instance and not yet received (0 none / marker) *)
+  m_seen_rev : Z               (* revision of the record in the last piece of news the instance handled as a follower (watch entry or periodic read) *)
 }.
 #[export] Instance eta_imon : Settable _ :=
-  settable! mkIMon <m_promotes; m_demotes; m_bal; m_cb_run; m_ctxdone; m_term_ended; m_issues_at; m_issues_n; m_gauge; m_last_to; m_stop_call>.
-Definition imon0 := mkIMon 0 0 0 [] [] [] (-1) 0 0 (-1) None.
+  settable! mkIMon <m_promotes; m_demotes; m_bal; m_cb_run; m_ctxdone; m_term_ended; m_issues_at; m_issues_n; m_gauge; m_last_to; m_stop_call; m_wsend; m_seen_rev>.
+Definition imon0 := mkIMon 0 0 0 [] [] [] (-1) 0 0 (-1) None 0 0.
 
 Definition mst := amap imon.
 Definition mon_of (m : mst) (i : Z) : imon := match aget m i with Some x => x | None => imon0 end.
@@ -249,6 +251,19 @@ Definition mapply (b b' : base) (m : mst) (te : Z * ev) : mst :=
         let x1 := x <| m_gauge := fl |> in
         if negb (zb fl) && io_flag x0 && zmem (io_tok x0) (m_cb_run x) && negb (zmem (io_tok x0) (m_ctxdone x))
         then x1 <| m_term_ended ::= cons (io_tok x0, t) |> else x1)
+  | EWSend i w n isnil rev val => mupd m i (fun x => x <| m_wsend := (if zb isnil then 0 else rev) |>)
+  | EWRecv i w n =>
+      (* the entry is handled at once; as a follower the instance adopts the leader id it names *)
+      mupd m i (fun x => if negb (io_flag (inst_of b i)) && (0 <? m_wsend x) then x <| m_seen_rev := m_wsend x |> else x)
+  | ERet i op rk rev val =>
+      match aget (b_pend b) op with
+      | Some p => if (p_kind p =? kGet) && (rk =? oOk) && negb (io_flag (inst_of b i)) &&
+                     ((p_inner p =? sPeriodic) ||
+                      (* a takeover candidate that yields also notes whom it yields to *)
+                      ((p_inner p =? sTakeover) && sok_of b val && (ic_prio (cfg_of b i) <=? prio_of b val)))
+                  then mupd m i (fun x => x <| m_seen_rev := rev |>) else m
+      | None => m
+      end
   | EIssue i op kind inner root gid key val exp =>
       mupd m i (fun x => if m_issues_at x =? t then x <| m_issues_n ::= Z.succ |> else x <| m_issues_at := t |> <| m_issues_n := 1 |>)
   | ETrans i f to => mupd m i (fun x => x <| m_last_to := to |>)
@@ -349,7 +364,13 @@ Definition mon_C18 (b : base) (m : mst) (te : Z * ev) : list alarm :=
        else []) ++
       when (io_stopped x && negb ((st =? stStopped) && negb (zb il))) 1806 ++
       when (negb (b_ended b) && negb (m_gauge (mon_of m i) =? il)) 1807 ++
-      when (negb (Bool.eqb (zb il) (zb pl))) 1809
+      when (negb (Bool.eqb (zb il) (zb pl))) 1809 ++
+      (* a follower that has learnt the current version of the record (watch entry or periodic read) names its owner *)
+      when (negb (zb il) && io_started x && negb (io_stopping x) && negb (io_stopped x) && negb (b_ended b) &&
+            match live_val b k with
+            | Some (r, v) => sok_of b v && (m_seen_rev (mon_of m i) =? r) && negb (lid =? sid_of b v)
+            | None => false
+            end) 1810
   | ETrans i f to =>
       let l := m_last_to (mon_of m i) in
       when (negb (l =? -1) && negb (f =? l)) 1808
